@@ -6,7 +6,7 @@ package main
 // one Go statement -> zero, one or two `Stmt`s, branch bodies recursively, and EVERY statement
 // whose shape is not listed below becomes `unknown <line>` (never dropped), so that the
 // comparison with Ro.Kernel.Expected.table fails. Control structure (blocks, if/else, `||`, `!`)
-// is read off the AST; leaf shapes are compared on `src(node)`: the gofmt-printed text of the AST
+// is read off the AST; leaf shapes are compared on `ksrc(node)`: the gofmt-printed text of the AST
 // node, without comments, whitespace collapsed (equal text = equal token sequence = equal AST).
 // R = receiver name of the method, k/a/b = decimal literals.
 //
@@ -62,7 +62,7 @@ var kernelRows = []struct{ typ, meth, lean string }{
 var kinds = [][2]string{{"Next", ".next"}, {"Error", ".error"}, {"Complete", ".complete"}}
 
 // src: canonical one-line text of an AST node (gofmt printing, no comments, whitespace collapsed)
-func src(n ast.Node) string {
+func ksrc(n ast.Node) string {
 	if n == nil {
 		return ""
 	}
@@ -85,7 +85,7 @@ func match(pat, text string) []string {
 func strip(in []ast.Stmt) (out []ast.Stmt) {
 	for _, s := range in {
 		if e, ok := s.(*ast.ExprStmt); ok {
-			if c, ok := e.X.(*ast.CallExpr); ok && match("@", src(c.Fun)) != nil && strings.HasPrefix(src(c.Fun), "verif") {
+			if c, ok := e.X.(*ast.CallExpr); ok && match("@", ksrc(c.Fun)) != nil && strings.HasPrefix(ksrc(c.Fun), "verif") {
 				continue
 			}
 		}
@@ -97,7 +97,7 @@ func strip(in []ast.Stmt) (out []ast.Stmt) {
 // sole: text of the only statement of a block ("" if there is not exactly one)
 func sole(b *ast.BlockStmt) string {
 	if ss := strip(b.List); len(ss) == 1 {
-		return src(ss[0])
+		return ksrc(ss[0])
 	}
 	return ""
 }
@@ -110,11 +110,11 @@ func recvOf(fd *ast.FuncDecl) (name, typ string) {
 	if f := fd.Recv.List[0]; len(f.Names) == 1 {
 		name = f.Names[0].Name
 	}
-	typ, _, _ = strings.Cut(strings.TrimPrefix(src(fd.Recv.List[0].Type), "*"), "[")
+	typ, _, _ = strings.Cut(strings.TrimPrefix(ksrc(fd.Recv.List[0].Type), "*"), "[")
 	return
 }
 
-func paramNames(ft *ast.FuncType) (out []string) {
+func kParamNames(ft *ast.FuncType) (out []string) {
 	for _, f := range ft.Params.List {
 		for _, n := range f.Names {
 			out = append(out, n.Name)
@@ -154,7 +154,7 @@ func (k *kernelSrc) parse(path string) {
 				}
 				if s, ok := sp.(*ast.ValueSpec); ok && x.Tok == token.CONST {
 					if len(s.Values) > 0 { // (an implicit repetition keeps the previous type and expression)
-						typ, isIota = src(s.Type), len(s.Values) == 1 && src(s.Values[0]) == "iota"
+						typ, isIota = ksrc(s.Type), len(s.Values) == 1 && ksrc(s.Values[0]) == "iota"
 					}
 					if isIota && typ == "Backpressure" && len(s.Names) == 1 {
 						k.consts[s.Names[0].Name] = i
@@ -188,7 +188,7 @@ func newTr(fd *ast.FuncDecl, typ string, consts map[string]int) *tr {
 		t.exact[R+".done = true"] = "setDone"
 		t.exact["return "+R+".done"] = "retFld .done"
 		t.exact["var errs []error"] = ""
-		if ps := paramNames(fd.Type); fd.Name.Name == "Add" && len(ps) == 1 && ps[0] == "teardown" {
+		if ps := kParamNames(fd.Type); fd.Name.Name == "Add" && len(ps) == 1 && ps[0] == "teardown" {
 			t.nilable["teardown"] = ".teardown"
 			t.exact["teardown()"] = "runNow"
 			t.exact[R+".finalizers = append("+R+".finalizers, teardown)"] = "appendFinalizer"
@@ -217,8 +217,8 @@ func unknown(n ast.Node) []string { return []string{fmt.Sprintf("unknown %d", li
 func (t *tr) block(in []ast.Stmt) []string {
 	ss, out := strip(in), []string{}
 	for i := 0; i < len(ss); i++ {
-		if t.typ == "subscriptionImpl" && i+1 < len(ss) && src(ss[i]) == "finalizers := "+t.R+".finalizers" &&
-			src(ss[i+1]) == t.R+".finalizers = make([]func(), 0)" {
+		if t.typ == "subscriptionImpl" && i+1 < len(ss) && ksrc(ss[i]) == "finalizers := "+t.R+".finalizers" &&
+			ksrc(ss[i+1]) == t.R+".finalizers = make([]func(), 0)" {
 			out = append(out, "swapFinalizers")
 			i++
 			continue
@@ -229,7 +229,7 @@ func (t *tr) block(in []ast.Stmt) []string {
 }
 
 func (t *tr) stmt(s ast.Stmt) []string {
-	txt := src(s)
+	txt := ksrc(s)
 	if l, ok := t.exact[txt]; ok {
 		if l == "" {
 			return nil
@@ -258,7 +258,7 @@ func (t *tr) stmt(s ast.Stmt) []string {
 }
 
 func (t *tr) call(c *ast.CallExpr) []string {
-	fun := src(c.Fun)
+	fun := ksrc(c.Fun)
 	for _, k := range kinds {
 		switch {
 		case t.typ == "subscriberImpl" && fun == t.R+".destination."+k[0]+"WithContext":
@@ -276,19 +276,19 @@ func (t *tr) call(c *ast.CallExpr) []string {
 
 func runTaken(r *ast.RangeStmt) bool {
 	b := strip(r.Body.List)
-	if src(r.Key) != "i" || r.Value != nil || r.Tok != token.DEFINE || src(r.X) != "finalizers" || len(b) != 2 ||
-		src(b[0]) != "err := execFinalizer(finalizers[i])" {
+	if ksrc(r.Key) != "i" || r.Value != nil || r.Tok != token.DEFINE || ksrc(r.X) != "finalizers" || len(b) != 2 ||
+		ksrc(b[0]) != "err := execFinalizer(finalizers[i])" {
 		return false
 	}
 	f, ok := b[1].(*ast.IfStmt)
-	return ok && f.Init == nil && f.Else == nil && src(f.Cond) == "err != nil" && sole(f.Body) == "errs = append(errs, err)"
+	return ok && f.Init == nil && f.Else == nil && ksrc(f.Cond) == "err != nil" && sole(f.Body) == "errs = append(errs, err)"
 }
 
 func (t *tr) ifStmt(s *ast.IfStmt) []string {
 	if s.Init != nil {
 		return unknown(s)
 	}
-	if t.typ == "subscriptionImpl" && s.Else == nil && src(s.Cond) == "len(errs) > 0" && sole(s.Body) == "panic(xerrors.Join(errs...))" {
+	if t.typ == "subscriptionImpl" && s.Else == nil && ksrc(s.Cond) == "len(errs) > 0" && sole(s.Body) == "panic(xerrors.Join(errs...))" {
 		return []string{"raiseJoined"}
 	}
 	var els []string
@@ -320,13 +320,13 @@ func (t *tr) branch(s *ast.IfStmt, c ast.Expr, els []string) []string {
 // cond: head of the if-like statement of a recognised condition ("" = not recognised); swap = the
 // branches are exchanged
 func (t *tr) cond(e ast.Expr) (head string, swap bool) {
-	R, txt := t.R, src(e)
+	R, txt := t.R, ksrc(e)
 	if u, ok := e.(*ast.UnaryExpr); ok && u.Op == token.NOT {
 		head, swap = t.cond(u.X)
 		return head, !swap
 	}
 	if b, ok := e.(*ast.BinaryExpr); ok && b.Op == token.NEQ { // X != Y is X == Y with the branches exchanged
-		swap, txt = true, src(b.X)+" == "+src(b.Y)
+		swap, txt = true, ksrc(b.X)+" == "+ksrc(b.Y)
 	}
 	if l, ok := strings.CutSuffix(txt, " == nil"); ok && t.nilable[l] != "" {
 		return "ifNil " + t.nilable[l], swap
@@ -360,14 +360,14 @@ func modeRows(fd *ast.FuncDecl, consts map[string]int) (out []string) {
 	row := func(m, ctor string, bp int) {
 		out = append(out, fmt.Sprintf("(%s, %s, %d)", leanStr(m), leanStr(ctor), bp))
 	}
-	if fd == nil || fd.Body == nil || len(paramNames(fd.Type)) != 2 {
+	if fd == nil || fd.Body == nil || len(kParamNames(fd.Type)) != 2 {
 		row("unknown:0", "unknown", 99)
 		return
 	}
-	ps := paramNames(fd.Type) // destination, mode
+	ps := kParamNames(fd.Type) // destination, mode
 	for _, s := range strip(fd.Body.List) {
 		sw, ok := s.(*ast.SwitchStmt)
-		if !ok || sw.Init != nil || src(sw.Tag) != ps[1] {
+		if !ok || sw.Init != nil || ksrc(sw.Tag) != ps[1] {
 			row(fmt.Sprintf("unknown:%d", line(s.Pos())), "unknown", 99)
 			continue
 		}
@@ -382,7 +382,7 @@ func modeRows(fd *ast.FuncDecl, consts map[string]int) (out []string) {
 						ctor, bp = m[0], v
 					}
 				}
-				row(src(mode), ctor, bp)
+				row(ksrc(mode), ctor, bp)
 			}
 		}
 	}
@@ -398,14 +398,14 @@ func (k *kernelSrc) mutexKind(typ string) string {
 		R, _ := recvOf(fd)
 		var ss []string
 		for _, s := range strip(fd.Body.List) {
-			ss = append(ss, src(s))
+			ss = append(ss, ksrc(s))
 		}
 		return strings.Join(ss, "; ") == strings.ReplaceAll(want, "$", R)
 	}
 	muSync := false
 	if st := k.structs[typ]; st != nil {
 		for _, f := range st.Fields.List {
-			muSync = muSync || (len(f.Names) == 1 && f.Names[0].Name == "mu" && src(f.Type) == "sync.Mutex")
+			muSync = muSync || (len(f.Names) == 1 && f.Names[0].Name == "mu" && ksrc(f.Type) == "sync.Mutex")
 		}
 	}
 	switch {
@@ -418,25 +418,25 @@ func (k *kernelSrc) mutexKind(typ string) string {
 }
 
 func wrapperRows(fd *ast.FuncDecl) (out []string) {
-	if fd == nil || fd.Body == nil || len(paramNames(fd.Type)) != 2 {
+	if fd == nil || fd.Body == nil || len(kParamNames(fd.Type)) != 2 {
 		return []string{"unknown:0"}
 	}
 	R, _ := recvOf(fd)
-	ps, sub := paramNames(fd.Type), "" // ctx, destination; sub = the subscriber variable
+	ps, sub := kParamNames(fd.Type), "" // ctx, destination; sub = the subscriber variable
 	unk := func(s ast.Stmt) { out = append(out, fmt.Sprintf("unknown:%d", line(s.Pos()))) }
 	// closure: the statements of a try/catch closure, by table; `last` is erased in last position only
 	closure := func(b *ast.BlockStmt, table map[string]string, last string) {
 		ss := strip(b.List)
 		for i, s := range ss {
-			if l, ok := table[src(s)]; ok && l != "" {
+			if l, ok := table[ksrc(s)]; ok && l != "" {
 				out = append(out, l)
-			} else if !ok && !(src(s) == last && i == len(ss)-1) {
+			} else if !ok && !(ksrc(s) == last && i == len(ss)-1) {
 				unk(s)
 			}
 		}
 	}
 	for _, s := range strip(fd.Body.List) {
-		txt := src(s)
+		txt := ksrc(s)
 		if m := match("@ := NewSubscriberWithConcurrencyMode("+ps[1]+", "+R+".mode)", txt); m != nil && sub == "" {
 			sub = m[0]
 			out = append(out, "newSubscriber(s.mode)")
@@ -447,11 +447,11 @@ func wrapperRows(fd *ast.FuncDecl) (out []string) {
 			continue
 		}
 		if x, ok := s.(*ast.ExprStmt); ok && sub != "" {
-			if c, ok := x.X.(*ast.CallExpr); ok && src(c.Fun) == "lo.TryCatchWithErrorValue" && len(c.Args) == 2 {
+			if c, ok := x.X.(*ast.CallExpr); ok && ksrc(c.Fun) == "lo.TryCatchWithErrorValue" && len(c.Args) == 2 {
 				f, ok1 := c.Args[0].(*ast.FuncLit)
 				g, ok2 := c.Args[1].(*ast.FuncLit)
-				if ok1 && ok2 && src(f.Type) == "func() error" && match("func(@ any)", src(g.Type)) != nil {
-					e := match("func(@ any)", src(g.Type))[0]
+				if ok1 && ok2 && ksrc(f.Type) == "func() error" && match("func(@ any)", ksrc(g.Type)) != nil {
+					e := match("func(@ any)", ksrc(g.Type))[0]
 					out = append(out, "try")
 					closure(f.Body, map[string]string{fmt.Sprintf("%s.Add(%s.subscribe(%s, %s))", sub, R, ps[0], sub): "add(subscribe(ctx,sub))"}, "return nil")
 					out = append(out, "catch")
